@@ -5,14 +5,14 @@ import copy
 import numpy as np
 from hypothesis import strategies as st
 
-from .. import common, gen as G, loopsem as L, expr as X, relations as R
+from .. import common, gen as G, loopsem as L, expr as X, relations as R, loopvmap as LV
 from ..common import Violation
 from . import c01
 from ._base import standard_run, standard_worker
 
 PROP = "C08"
 RULE = (
-    "From a generated call with explicit outputs (all operation families, numpy-family backends) one metamorphic twin is "
+    "From a generated call with explicit outputs (all operation families, numpy-family backends and the loop-vmap double) one metamorphic twin is "
     "derived: R1 consistent renaming (fresh names, swaps, names reversing lexicographic order); R2 reordering the top-level "
     "items of one input (bracketed items keep their relative order) with the tensor transposed accordingly; R3 the same on "
     "an output, expecting the transposed result; R4 grouping/ungrouping adjacent top-level items with parentheses on tensor "
@@ -39,7 +39,7 @@ def relation_case(draw, tier="quick", k=0):
     elif rel == "compose":
         base = draw(G.pure_id_case(with_third=True))
     else:
-        base = draw(G.stratified_case(k, quick=(tier == "quick")))
+        base = draw(G.stratified_case(k, quick=(tier == "quick"), backends=G.BACKENDS + [LV.NAME]))
     rnd = [draw(st.integers(0, 10**6)) for _ in range(6)]
     return {"rel": rel, "base": base, "rnd": rnd}
 
